@@ -540,12 +540,17 @@ def pickBool (a b : Option Bool) : Bool :=
     | some y => y
     | none => false
 
+/-- `strip_control_codes` applied by `Text.__init__` (text.py:139, control.py:8-14): backspace, vertical tab,
+form feed and carriage return are removed (they can only come from a leaf whose `repr` contains them). -/
+def stripControl (s : Str) : Str :=
+  s.filter fun c => !(c.toNat == 8 || c.toNat == 11 || c.toNat == 12 || c.toNat == 13)
+
 /-- `Pretty.__rich_console__(console, options)` on an already traversed object. -/
 def prettyConsole (cw : Char → Nat) (v : Variant) (n : Node) (p : PrettyOpts) (o : ConsoleOpts) :
     ConsoleOut :=
   let s := render cw v n (o.maxWidth - p.margin) p.indentSize p.expandAll
   { blankFirst := p.insertLine && s.contains '\n',
-    text := s,
+    text := stripControl s,
     justify := strOr p.justify o.justify,
     overflow := strOr p.overflow o.overflow,
     noWrap := pickBool p.noWrap o.noWrap,
